@@ -57,19 +57,18 @@ Example c13_new_assembly_examples :
   /\ fetch_pairs (send (fetch_line 1 w_literal_then_inline)) = Some (dec 1, map pair_of w_literal_then_inline).
 Proof. exact new_assembly_examples. Qed.
 
-(** FLAGS value: a stored flag string without parenthesis/quote/brace/CR/LF
-    gives one well-formed token "(flags)". *)
+(** FLAGS value: a stored flag string made of flag bytes and blanks (the only
+    strings STORE / APPEND can store since fix e64d29e, message.ValidFlag) gives
+    one well-formed token "(flags)". *)
 Theorem c13_flags_value_tok : forall flags : str,
-  classify_flags flags = None -> tokb (LP :: flags ++ [RP]) = true.
+  flags_plain flags = true -> tokb (LP :: flags ++ [RP]) = true.
 Proof. exact flags_value_tok. Qed.
 Print Assumptions c13_flags_value_tok.
 
-(** K-flagatom (confirmed): STORE accepts x)y as a flag. *)
-Theorem c13_refuted_flag_atom :
-  exists flags, classify_flags flags = Some flag_atom
-    /\ wf_stream (send (fetch_line 1 [Inline (S_ "FLAGS") (LP :: flags ++ [RP])])) = false.
-Proof. exact refuted_flag_atom. Qed.
-Print Assumptions c13_refuted_flag_atom.
+(** regression (K-flagatom, repaired by e64d29e): FLAGS (x)y) is unbalanced *)
+Example c13_old_flag_atom_malformed :
+  wf_stream (send (S_ "* 1 FETCH (FLAGS (x)y))")) = false /\ flags_plain (S_ "x)y") = false.
+Proof. exact old_flag_atom_malformed. Qed.
 
 (** LIST / LSUB / STATUS lines (since the F15 fix the name goes through
     utils.QuoteString): for EVERY mailbox name without CR/LF — double quotes,
